@@ -103,8 +103,10 @@ func c02Overrides(c *Ctx) {
 			// the override's own flag "this datagram's Initial packet is built from the spec": under it nothing is
 			// coalesced (decided by C13.12); it is not part of the conditions shared with the base
 			og.GuardSkip = func(cond ssa.Value) bool {
+				// (a boolean local of the override that is assigned on several paths: a φ carrying a variable's
+				// name; short-circuit temporaries are not named)
 				ph, ok := cond.(*ssa.Phi)
-				return ok && ph.Comment == "specInitial" && ph.Parent() == u
+				return ok && ph.Parent() == u && token.IsIdentifier(ph.Comment)
 			}
 		}
 		ag := map[string]string{}
